@@ -716,6 +716,13 @@ func (e *Env) selectField(x SVal, name string) SVal {
 				hn, hs := vc.d.fieldHeap(S, i)
 				cur = SVal{t: fmt.Sprintf("(select %s %s)", vc.heap(e.stOf(cur), hn, hs), cur.t), typ: ft, sort: vc.d.sortOf(ft), st: cur.st}
 				e.typeSide(cur.t, ft)
+				// a reference stored in the heap of a state was allocated before that state
+				switch ft.Underlying().(type) {
+				case *types.Slice:
+					e.addSide(fmt.Sprintf("(< (s-arr %s) %s)", cur.t, e.stOf(cur).alloc), "")
+				case *types.Pointer, *types.Map:
+					e.addSide(fmt.Sprintf("(< (base %s) %s)", cur.t, e.stOf(cur).alloc), "")
+				}
 			}
 		} else {
 			s, ok := isStruct(T)
